@@ -53,3 +53,27 @@ Definition include_directive_text (rel : comps) : str :=
 (* what _extract_includes reads back from that directive line *)
 Definition directive_name (line : str) : option str :=
   match include_line_rest line with Some rest => Some (include_name_of rest) | None => None end.
+
+(* SDict.include(self, other) --------------------------------------------------------------------------------------
+   self with the counter at c; from_dir = components of self.source_file.parent, to = components of other.source_file
+   (both absolute and normalised), path = other.source_file as a string.  The loop `ii = counter(); if placeholder in
+   self: continue` runs on fuel: one more draw than self has keys (enough whenever self has fewer than 10^6 keys;
+   `Raise E_Fuel` is never a Python outcome: the loop would not end). *)
+Fixpoint include_slot (fuel : nat) (data : list (key * tree)) (c : Z) : option (N * Z) :=
+  match fuel with
+  | O => None
+  | S f =>
+      let c' := counter_next c in
+      let i := Z.to_N c' in
+      if amem (KS (placeholder w_INCLUDE i)) data then include_slot f data c' else Some (i, c')
+  end.
+Definition sd_include (s : sdict) (c : Z) (from_dir to : comps) (path : str) : res (sdict * Z) :=
+  match include_slot (S (length (sd_data s))) (sd_data s) c with
+  | None => Raise E_Fuel
+  | Some (i, c') =>
+      let name := join_slash (relative_path from_dir to) in
+      let directive := of_string "#include " ++ format_string (replace_all [92] [92; 92] name) in
+      let ph := placeholder w_INCLUDE i in
+      Ok (mkSD (aset (KS ph) (Leaf (SStr ph)) (sd_data s)) (sd_lc s) (sd_bc s)
+               (tset i (directive, name, path) (sd_inc s)) (sd_expr s), c')
+  end.
